@@ -2,7 +2,7 @@
 import random
 import struct
 
-from checks.common import UdpCheck, gen_traffic, limits, Monitor
+from checks.common import UdpCheck, gen_traffic, limits, Monitor, PoolGuard
 from world.attacker import Attacker
 from world.udpworld import ATTACKER_MARK, SERVER_ADDR, client_addr, ConnectionStatus, PacketType
 from world import refmodel as R
@@ -34,26 +34,6 @@ class AuthMonitor(Monitor):
         self.n_prekey = 0
         self.prev_temp = {}
         self.accepted_wids = {}      # conn name -> set of wire ids accepted (for replay classification)
-
-    def on_tick(self):
-        # server pools: the connection object (hence key and token) bound to an address that is in the middle of a
-        # handshake may only change by promotion, by its own timeout, or after a disconnect - never because some
-        # unauthenticated datagram arrived
-        w = self.w
-        now = w.k.now
-        cur = dict(w.ctxt.temp_connections)
-        for addr, old in self.prev_temp.items():
-            new = cur.get(addr)
-            if new is old or not old.session_key_bytes:
-                continue
-            promoted = w.ctxt.connections.get(addr) is old
-            age = old.clock() - old.last_recv_time
-            timed_out = age >= (w.ctxt.temp_connection_timeout or 2.0) * 0.95
-            if not promoted and not timed_out and old.status.value != ConnectionStatus.DISCONNECTED.value:
-                w.violation("keyed_pending_connection_replaced_without_authentication",
-                            {"addr": addr, "age_of_old": round(age, 4), "replaced_by_new_object": new is not None},
-                            key="replaced" if new is not None else "removed")
-        self.prev_temp = cur
 
     def pre_recv(self, conn, hdr, datagram):
         origin = getattr(datagram, "origin", "net")
@@ -245,7 +225,7 @@ class C01(UdpCheck):
 
     def monitors(self, case):
         self.mon = AuthMonitor()
-        return [self.mon]
+        return [self.mon, PoolGuard()]
 
     def prepare(self, w, case):
         Attacker(w)
